@@ -419,6 +419,32 @@ def bm_extend(vm, o, args, kw):
     raise Unsupported('extend of a concrete bytearray with symbolic bytes')
 
 
+def bm_startswith(vm, o, args, kw):
+    """bytes.startswith / endswith(prefix) with symbolic content (one prefix, no start/end arguments)."""
+    return _affix(vm, o, args, kw, True)
+
+
+def bm_endswith(vm, o, args, kw):
+    return _affix(vm, o, args, kw, False)
+
+
+def _affix(vm, o, args, kw, front):
+    if len(args) != 1 or kw or isinstance(args[0], tuple):
+        raise Unsupported('startswith/endswith with a tuple or start/end on symbolic bytes')
+    pre = args[0]
+    if not isinstance(pre, (bytes, bytearray, SBytes)):
+        raise TypeError('startswith first arg must be bytes or a tuple of bytes')
+    n, m = SBytes(atoms_of(o)).length(), SBytes(atoms_of(pre)).length()
+    if vm.truth(mk_bool(zint(m) > zint(n))):
+        return False
+    whole = mk_bytes(atoms_of(o))
+    if isinstance(whole, SBytes):
+        part = sbytes_getitem(vm, whole, slice(0, m, None) if front else slice(mk_int(zint(n) - zint(m)), None, None))
+    else:
+        part = whole[:m] if front else whole[len(whole) - m:]
+    return vm.truth(vm.eq(part, mk_bytes(atoms_of(pre))))
+
+
 def bm_join(vm, o, args, kw):
     parts = list(vm.iterate(args[0]))
     out = []
@@ -1288,6 +1314,8 @@ def install(vm):
         MM[(t, 'hex')] = bm_hex
         MM[(t, 'decode')] = bm_decode
         MM[(t, 'join')] = bm_join
+        MM[(t, 'startswith')] = bm_startswith
+        MM[(t, 'endswith')] = bm_endswith
     for t in (SBytes, bytearray):
         MM[(t, 'append')] = bm_append
         MM[(t, 'extend')] = bm_extend
